@@ -45,7 +45,7 @@ class Capture(object):
 
 
 @contextlib.contextmanager
-def pipeline(tree, printed='P', capture=None):
+def pipeline(tree, printed='P', capture=None, placeholder_only=False):
     """Enter the real minify() body without text: ast.parse returns `tree`, unparse returns `printed`.
 
     Everything between (stage order, option gating, taint handling, preserve lists) is the real code.
@@ -55,7 +55,7 @@ def pipeline(tree, printed='P', capture=None):
     def fake_parse(*a, **k):
         # minify('') is the entry point: the empty placeholder source stands for the pre-built tree; any other text
         # (e.g. constant folding re-parsing its candidate) goes to the real parser
-        if a and isinstance(a[0], str) and a[0] == '':
+        if not placeholder_only or (a and isinstance(a[0], str) and a[0] == ''):
             return tree
         return real_parse(*a, **k)
 
